@@ -68,6 +68,22 @@ struct Geo {
     poi: Vec<usize>,
 }
 
+/// plain `GeometryVertex` of the hook `(kind, id)` <-> `R3` / `P2` / `I5` / `C17`
+fn gv_str(v: (u8, usize)) -> String {
+    format!("{}{}", ["R", "P", "I", "C"][v.0 as usize & 3], v.1)
+}
+
+fn gv_parse(s: &str) -> Option<(u8, usize)> {
+    let k = match s.as_bytes().first()? {
+        b'R' => 0,
+        b'P' => 1,
+        b'I' => 2,
+        b'C' => 3,
+        _ => return None,
+    };
+    Some((k, s.get(1..)?.parse().ok()?))
+}
+
 fn clip_of(s: &str) -> Option<Clip> {
     Some(match s {
         "none" => Clip::None,
@@ -557,6 +573,186 @@ pub fn step(sess: &mut Sess, toks: &[&str]) -> Option<String> {
                 Ok(()) => "ok".into(),
                 Err(e) => gris_err(&e),
             })
+        }
+        "gseg" => {
+            // gseg <cx> <cy> <ox> <oy> <nx> <ny> <nv> x y … <nseg> a b … <npoi> p …: step 1 of the kernel on a fresh grid for the
+            // whole geometry (hook `verif::segments`): the content of `new_segments`, `K>V` pairs sorted by key
+            // (R regular, P point of interest, I intersection, C corner intersection); then `| dart t ; …` the slot vector
+            let mut it = toks[1..].iter();
+            let mut num = |it: &mut std::slice::Iter<&str>| -> Option<f64> { parse_rat(it.next()?) };
+            let (Some(cx), Some(cy), Some(ox), Some(oy)) = (num(&mut it), num(&mut it), num(&mut it), num(&mut it)) else {
+                return Some("bad-op".into());
+            };
+            let int = |it: &mut std::slice::Iter<&str>| -> Option<usize> { it.next()?.parse().ok() };
+            let (Some(nx), Some(ny), Some(nv)) = (int(&mut it), int(&mut it), int(&mut it)) else { return Some("bad-op".into()) };
+            let mut vertices = vec![];
+            for _ in 0..nv {
+                let (Some(x), Some(y)) = (num(&mut it), num(&mut it)) else { return Some("bad-op".into()) };
+                vertices.push(honeycomb_core::geometry::Vertex2(x, y));
+            }
+            let Some(ns) = int(&mut it) else { return Some("bad-op".into()) };
+            let mut segments = vec![];
+            for _ in 0..ns {
+                let (Some(a), Some(b)) = (int(&mut it), int(&mut it)) else { return Some("bad-op".into()) };
+                if a >= nv || b >= nv {
+                    return Some("bad-op".into());
+                }
+                segments.push((a, b));
+            }
+            let Some(np) = int(&mut it) else { return Some("bad-op".into()) };
+            let mut poi = vec![];
+            for _ in 0..np {
+                let Some(p) = int(&mut it) else { return Some("bad-op".into()) };
+                poi.push(p);
+            }
+            if it.next().is_some() {
+                return Some("bad-op".into());
+            }
+            let gd = honeycomb_core::cmap::GridDescriptor::<2, f64>::default().n_cells([nx, ny]).len_per_cell([cx, cy]).origin([ox, oy]);
+            let Ok(map) = CMapBuilder::<2, f64>::from_grid_descriptor(gd).build() else { return Some("bad-op".into()) };
+            let geometry = honeycomb_kernels::grisubal::verif::Geometry2 { vertices, segments, poi };
+            let origin = honeycomb_core::geometry::Vertex2(ox, oy);
+            let mut segs = honeycomb_kernels::grisubal::verif::segments(&map, &geometry, [nx, ny], [cx, cy], origin);
+            segs.sort();
+            let data = honeycomb_kernels::grisubal::verif::intersection_data(&map, &geometry, [nx, ny], [cx, cy], origin);
+            let parts: Vec<String> = segs.iter().map(|(k, v)| format!("{}>{}", gv_str(*k), gv_str(*v))).collect();
+            let slots: Vec<String> = data.iter().map(|(d, t)| format!("{d} {}", crate::fmt::rat(*t))).collect();
+            Some(format!("ok {} | {}", parts.join(" "), slots.join(" ; ")))
+        }
+        "gpipe" => {
+            // gpipe <anchors 0|1> <cx> <cy> <ox> <oy> <nx> <ny> <nv> x y … <nseg> a b … <npoi> p …: steps 1-5 of the kernel, hook by
+            // hook, on a fresh grid with the Boundary (and anchor) storages, every intermediate datum dumped:
+            // `ok K>V … | dart t ; … | id … | start n x y … end ; …`; the resulting map becomes the session map
+            let mut it = toks[1..].iter();
+            let Some(anch) = it.next().and_then(|t| t.parse::<u8>().ok()) else { return Some("bad-op".into()) };
+            let num = |it: &mut std::slice::Iter<&str>| -> Option<f64> { parse_rat(it.next()?) };
+            let (Some(cx), Some(cy), Some(ox), Some(oy)) = (num(&mut it), num(&mut it), num(&mut it), num(&mut it)) else {
+                return Some("bad-op".into());
+            };
+            let int = |it: &mut std::slice::Iter<&str>| -> Option<usize> { it.next()?.parse().ok() };
+            let (Some(nx), Some(ny), Some(nv)) = (int(&mut it), int(&mut it), int(&mut it)) else { return Some("bad-op".into()) };
+            let mut vertices = vec![];
+            for _ in 0..nv {
+                let (Some(x), Some(y)) = (num(&mut it), num(&mut it)) else { return Some("bad-op".into()) };
+                vertices.push(honeycomb_core::geometry::Vertex2(x, y));
+            }
+            let Some(ns) = int(&mut it) else { return Some("bad-op".into()) };
+            let mut segments = vec![];
+            for _ in 0..ns {
+                let (Some(a), Some(b)) = (int(&mut it), int(&mut it)) else { return Some("bad-op".into()) };
+                if a >= nv || b >= nv {
+                    return Some("bad-op".into());
+                }
+                segments.push((a, b));
+            }
+            let Some(np) = int(&mut it) else { return Some("bad-op".into()) };
+            let mut poi = vec![];
+            for _ in 0..np {
+                let Some(p) = int(&mut it) else { return Some("bad-op".into()) };
+                poi.push(p);
+            }
+            if it.next().is_some() {
+                return Some("bad-op".into());
+            }
+            let gd = honeycomb_core::cmap::GridDescriptor::<2, f64>::default().n_cells([nx, ny]).len_per_cell([cx, cy]).origin([ox, oy]);
+            let mut b = CMapBuilder::<2, f64>::from_grid_descriptor(gd).add_attribute::<Boundary>();
+            if anch != 0 {
+                b = b.add_attribute::<VertexAnchor>().add_attribute::<EdgeAnchor>().add_attribute::<FaceAnchor>();
+            }
+            let Ok(mut map) = b.build() else { return Some("bad-op".into()) };
+            let geometry = honeycomb_kernels::grisubal::verif::Geometry2 { vertices, segments, poi };
+            let origin = honeycomb_core::geometry::Vertex2(ox, oy);
+            let mut segs = honeycomb_kernels::grisubal::verif::segments(&map, &geometry, [nx, ny], [cx, cy], origin);
+            let data = honeycomb_kernels::grisubal::verif::intersection_data(&map, &geometry, [nx, ny], [cx, cy], origin);
+            let slots: Vec<String> = data.iter().map(|(d, t)| format!("{d} {}", crate::fmt::rat(*t))).collect();
+            let ids = intersection_darts(&mut map, data);
+            let edges = honeycomb_kernels::grisubal::verif::edge_data(&map, &geometry, &segs, &ids);
+            honeycomb_kernels::grisubal::verif::insert_edges(&mut map, &edges);
+            segs.sort();
+            let parts: Vec<String> = segs.iter().map(|(k, v)| format!("{}>{}", gv_str(*k), gv_str(*v))).collect();
+            let idl: Vec<String> = ids.iter().map(|d| d.to_string()).collect();
+            let el: Vec<String> = edges
+                .iter()
+                .map(|(a, inter, b)| {
+                    let pts: Vec<String> = inter.iter().map(|p| format!(" {} {}", crate::fmt::rat(p.x()), crate::fmt::rat(p.y()))).collect();
+                    format!("{a} {}{} {b}", inter.len(), pts.join(""))
+                })
+                .collect();
+            install(sess, map);
+            Some(format!("ok {} | {} | {} | {}", parts.join(" "), slots.join(" ; "), idl.join(" "), el.join(" ; ")))
+        }
+        "gedges" => {
+            // gedges <nv> x y … <np> K>V … <nd> d …: step 4 (hook `verif::edge_data`) on the session map:
+            // `ok start n x y … end ; …` in the order the routine yields them
+            let Sess::D2(s) = sess else { return Some("bad-op".into()) };
+            let mut it = toks[1..].iter();
+            let Some(nv) = it.next().and_then(|t| t.parse::<usize>().ok()) else { return Some("bad-op".into()) };
+            let mut vertices = vec![];
+            for _ in 0..nv {
+                let (Some(x), Some(y)) = (it.next().and_then(|t| parse_rat(t)), it.next().and_then(|t| parse_rat(t))) else {
+                    return Some("bad-op".into());
+                };
+                vertices.push(honeycomb_core::geometry::Vertex2(x, y));
+            }
+            let Some(np) = it.next().and_then(|t| t.parse::<usize>().ok()) else { return Some("bad-op".into()) };
+            let mut pairs = vec![];
+            for _ in 0..np {
+                let Some((k, v)) = it.next().and_then(|t| t.split_once('>')) else { return Some("bad-op".into()) };
+                let (Some(k), Some(v)) = (gv_parse(k), gv_parse(v)) else { return Some("bad-op".into()) };
+                pairs.push((k, v));
+            }
+            let Some(nd) = it.next().and_then(|t| t.parse::<usize>().ok()) else { return Some("bad-op".into()) };
+            let mut darts = vec![];
+            for _ in 0..nd {
+                let Some(d) = it.next().and_then(|t| t.parse::<DartIdType>().ok()) else { return Some("bad-op".into()) };
+                darts.push(d);
+            }
+            if it.next().is_some() {
+                return Some("bad-op".into());
+            }
+            let geometry = honeycomb_kernels::grisubal::verif::Geometry2 { vertices, segments: vec![], poi: vec![] };
+            let edges = honeycomb_kernels::grisubal::verif::edge_data(&s.map, &geometry, &pairs, &darts);
+            let parts: Vec<String> = edges
+                .iter()
+                .map(|(a, inter, b)| {
+                    let pts: Vec<String> = inter.iter().map(|p| format!(" {} {}", crate::fmt::rat(p.x()), crate::fmt::rat(p.y()))).collect();
+                    format!("{a} {}{} {b}", inter.len(), pts.join(""))
+                })
+                .collect();
+            Some(if parts.is_empty() { "ok".into() } else { format!("ok {}", parts.join(" ; ")) })
+        }
+        "gins" => {
+            // gins <ne> (start n x y … end) …: step 5 (hook `verif::insert_edges`) on the session map, edges in the order given
+            let Sess::D2(s) = sess else { return Some("bad-op".into()) };
+            if !s.map.contains_attribute::<Boundary>() {
+                return Some("bad-op".into());
+            }
+            let mut it = toks[1..].iter();
+            let Some(ne) = it.next().and_then(|t| t.parse::<usize>().ok()) else { return Some("bad-op".into()) };
+            let nd = s.map.n_darts() as DartIdType;
+            let mut edges = vec![];
+            for _ in 0..ne {
+                let (Some(a), Some(n)) = (it.next().and_then(|t| t.parse::<DartIdType>().ok()), it.next().and_then(|t| t.parse::<usize>().ok())) else {
+                    return Some("bad-op".into());
+                };
+                let mut inter = vec![];
+                for _ in 0..n {
+                    let (Some(x), Some(y)) = (it.next().and_then(|t| parse_rat(t)), it.next().and_then(|t| parse_rat(t))) else {
+                        return Some("bad-op".into());
+                    };
+                    inter.push(honeycomb_core::geometry::Vertex2(x, y));
+                }
+                let Some(b) = it.next().and_then(|t| t.parse::<DartIdType>().ok()) else { return Some("bad-op".into()) };
+                if a >= nd || b >= nd {
+                    return Some("bad-op".into());
+                }
+                edges.push((a, inter, b));
+            }
+            if it.next().is_some() {
+                return Some("bad-op".into());
+            }
+            honeycomb_kernels::grisubal::verif::insert_edges(&mut s.map, &edges);
+            Some("ok".into())
         }
         "ogridg" => {
             // ogridg grisubal|capture <geometry as for `grisubal`>: the overlapping grid the call chooses (origin-shift loop
